@@ -1,15 +1,16 @@
 /-
   Doc comments (C16): the comment lexer (`parsers/comments/lexer.rs`), the comment grammar
   (`grammar.lalrpop`) as a recursive-descent parser, and the two helper functions of `grammar.rs`
-  (`sanitize_message_lines`, `construct_section_message`) on UTF-8 *byte* offsets, exactly as the Rust.
+  (`sanitize_message_lines`, `construct_section_message`), exactly as the Rust.
 
   Strings are `List Char` (`Str`); the UTF-8 width of a character is `Char.utf8Size`, so that
-  `str::find` (a byte index) and `String::replace_range(..n, "")` (panics when `n` is not on a
+  `char_indices` (byte offsets) and `String::replace_range(..n, "")` (panics when `n` is not on a
   character boundary) are modelled faithfully without leaving `List Char`.
   Token *locations* are not modelled here (C09 talks about spans, C16 does not).
 -/
 import SlicecVerif.Model.Basic
 import SlicecVerif.Gen.CommentKeywords
+import SlicecVerif.Gen.CommentSanitize
 
 namespace Slicec
 
@@ -175,47 +176,100 @@ inductive CErr where
 
 abbrev nl : Comp := .text ['\n']
 
-/-! ## `sanitize_message_lines` / `construct_section_message` on byte offsets -/
+/-! ## `sanitize_message_lines` / `construct_section_message`
 
-/-- byte index of the first non-whitespace character; `none` when there is none -/
-def wsIndexAux : Str → Option Nat
-  | [] => none
-  | c :: cs => if isWsC c then (wsIndexAux cs).map (· + c.utf8Size) else some 0
+  Since the repair of D-16a / D-16b the common indentation is *counted* in characters; the only byte offset left is the
+  end index handed to `String::replace_range(..end, "")`, which panics when `end` is not on a character boundary. That
+  index is modelled (`endIndex`) and so is `replace_range` (`dropBytes`, `none` = panic); `Props/C16.sanitize_no_panic`
+  proves that the panic cannot happen any more: `char_indices().nth(n).unwrap_or(len)` is the offset of a character or the
+  length of the text. -/
 
-/-- `text.find(|c| !c.is_whitespace()).unwrap_or_default()` -/
-def wsIndex (t : Str) : Nat := (wsIndexAux t).getD 0
+/-- `text.chars().take_while(|c| c.is_whitespace()).count()` -/
+def leadWs (t : Str) : Nat := (t.takeWhile isWsC).length
 
-/-- first loop of `sanitize_message_lines`; `none` = `usize::MAX`. A line starting with a link sets 0 and breaks. -/
+/-- first loop of `sanitize_message_lines`; `none` = `usize::MAX` (a count never reaches it, so `min(count, MAX) = count`).
+    * `None` line: not looked at;
+    * first component a text: counted in characters; `continue` when `message.len() == 1 && whitespace_count == text.chars().count()`
+      (the line consists of whitespace only), otherwise `common = min(whitespace_count, common)` — in particular an
+      all-whitespace text that is followed by further components (a link, a `{`) counts with its full length;
+    * first component a link: `common = 0; break`. -/
 def commonWs : Option Nat → List MLine → Option Nat
   | acc, [] => acc
   | acc, none :: rest => commonWs acc rest
-  | acc, some (.text t, _) :: rest =>
-    commonWs (some (match acc with | none => wsIndex t | some a => min (wsIndex t) a)) rest
+  | acc, some (.text t, more) :: rest =>
+    let whitespaceCount := leadWs t
+    if more.isEmpty && whitespaceCount == t.length then commonWs acc rest
+    else commonWs (some (match acc with | none => whitespaceCount | some a => min whitespaceCount a)) rest
   | _, some (.link _, _) :: _ => some 0
 
-/-- `replace_range(..n, "")`: `none` = panic (`n` is not on a character boundary, or beyond the end) -/
+/-- `if common_leading_whitespace == usize::MAX { common_leading_whitespace = 0; }` (no line had any content) -/
+def normaliseCommon (c : Option Nat) : Nat := c.getD 0
+
+/-- `text.char_indices().map(|(index, _)| index).nth(n).unwrap_or(text.len())`: the byte offset of character number `n`,
+    or the byte length of the text when it has at most `n` characters -/
+def endIndex : Str → Nat → Nat
+  | [], _ => 0
+  | _ :: _, 0 => 0
+  | c :: cs, n + 1 => c.utf8Size + endIndex cs n
+
+/-- `replace_range(..n, "")` on UTF-8: `none` = panic (`n` is inside a character, or beyond the end) -/
 def dropBytes : Str → Nat → Option Str
   | cs, 0 => some cs
   | [], _ + 1 => none
   | c :: cs, n + 1 => if c.utf8Size ≤ n + 1 then dropBytes cs (n + 1 - c.utf8Size) else none
 
-def stripLine (n : Nat) : MLine → Option (List Comp)
+/-- second loop, one line: the first component, if it is a text, loses the bytes before `cut text`; a `"\n"` text is appended;
+    a `None` line becomes `["\n"]` -/
+def stripLine (cut : Str → Nat) : MLine → Option (List Comp)
   | none => some [nl]
   | some (.text t, rest) =>
-    match dropBytes t n with
+    match dropBytes t (cut t) with
     | some t' => some (.text t' :: rest ++ [nl])
     | none => none
   | some (.link id, rest) => some (.link id :: rest ++ [nl])
 
-def stripLines (n : Nat) : List MLine → Option Msg
+/-- second loop (`flat_map`); `none` = some `replace_range` panicked -/
+def stripLines (cut : Str → Nat) : List MLine → Option Msg
   | [] => some []
   | l :: ls =>
-    match stripLine n l, stripLines n ls with
+    match stripLine cut l, stripLines cut ls with
     | some a, some b => some (a ++ b)
     | _, _ => none
 
+/-! ### the shape before the repair of D-16a / D-16b (byte offsets): the other reading of the extracted flag
+
+  `Gen.sanitizeCountsChars` is read off grammar.rs on every run. It is `true` on a tree that contains the repair, and then
+  nothing in this subsection is used. Should the source go back to `find(..).unwrap_or_default()` and
+  `replace_range(..index, "")`, the flag becomes `false`, `sanitizeMessageLines` follows the code again (this reading agreed
+  with the pre-repair grammar.rs on every comment of the thorough stream), `Props/C16.sanitize_eq_spec` and what rests on it
+  stop compiling, and the driver reports every comment on which the code's rule and the property's rule differ as a model
+  counterexample. Any other shape of the function is an extraction failure. -/
+
+def wsIndexAux : Str → Option Nat
+  | [] => none
+  | c :: cs => if isWsC c then (wsIndexAux cs).map (· + c.utf8Size) else some 0
+
+/-- `text.find(|c| !c.is_whitespace()).unwrap_or_default()`: a byte index; 0 for an all-whitespace text -/
+def wsIndex (t : Str) : Nat := (wsIndexAux t).getD 0
+
+def commonWsBytes : Option Nat → List MLine → Option Nat
+  | acc, [] => acc
+  | acc, none :: rest => commonWsBytes acc rest
+  | acc, some (.text t, _) :: rest =>
+    commonWsBytes (some (match acc with | none => wsIndex t | some a => min (wsIndex t) a)) rest
+  | _, some (.link _, _) :: _ => some 0
+
+/-! ### `sanitize_message_lines` -/
+
 def sanitizeMessageLines (lines : List MLine) : Outcome CErr Msg :=
-  match stripLines ((commonWs none lines).getD 0) lines with
+  let stripped :=
+    if Gen.sanitizeCountsChars then
+      let common := normaliseCommon (commonWs none lines)
+      stripLines (fun text => endIndex text common) lines
+    else
+      let common := (commonWsBytes none lines).getD 0
+      stripLines (fun _ => common) lines
+  match stripped with
   | some m => .ok m
   | none => .panic "replace_range"
 
@@ -230,10 +284,12 @@ def constructSectionMessage (inl : Option (List Comp)) (lines : Option Msg) : Ms
       | m => m
     m ++ [nl] ++ value
 
-/-! ## what the property demands of indentation stripping (character counts, blank lines ignored,
-       a line that starts with a link after whitespace is indented by that whitespace) -/
+/-! ## what the property demands of indentation stripping (declarative)
 
-def leadWs (t : Str) : Nat := (t.takeWhile isWsC).length
+  The indentation of a line is its number of leading whitespace *characters*; a line without content (empty, or whitespace
+  only) has none and is ignored; a line that starts with a link has indentation 0; whitespace in front of a link (or of a
+  `{`, which the lexer makes a text of its own) is indentation in full. The common indentation is the minimum over the lines
+  that have one (0 if there is none) and is removed from the front of every line's first text. -/
 
 def lineIndent : MLine → Option Nat
   | none => none
@@ -246,33 +302,16 @@ def minOpt : List (Option Nat) → Option Nat
   | none :: r => minOpt r
   | some a :: r => match minOpt r with | none => some a | some b => some (min a b)
 
-def sanitizeSpec (lines : List MLine) : Msg :=
-  let n := (minOpt (lines.map lineIndent)).getD 0
-  lines.flatMap fun l =>
-    match l with
-    | none => [nl]
-    | some (.text t, rest) => .text (t.drop n) :: rest ++ [nl]
-    | some (.link id, rest) => .link id :: rest ++ [nl]
+/-- the property's common indentation -/
+def commonIndent (lines : List MLine) : Nat := (minOpt (lines.map lineIndent)).getD 0
 
+/-- a line with `n` characters removed from the front of its first text, closed by the `"\n"` text -/
+def lineWithout (n : Nat) : MLine → List Comp
+  | none => [nl]
+  | some (.text t, rest) => .text (t.drop n) :: rest ++ [nl]
+  | some (.link id, rest) => .link id :: rest ++ [nl]
 
-/-- the code's algorithm with *character* counts instead of byte offsets (what a minimal repair of D-16a computes);
-    used by the driver to attribute a disagreement between code and property to D-16a or to D-16b -/
-def wsIndexChars (t : Str) : Nat := if t.all isWsC then 0 else leadWs t
-
-def commonWsChars : Option Nat → List MLine → Option Nat
-  | acc, [] => acc
-  | acc, none :: rest => commonWsChars acc rest
-  | acc, some (.text t, _) :: rest =>
-    commonWsChars (some (match acc with | none => wsIndexChars t | some a => min (wsIndexChars t) a)) rest
-  | _, some (.link _, _) :: _ => some 0
-
-def sanitizeChars (lines : List MLine) : Msg :=
-  let n := (commonWsChars none lines).getD 0
-  lines.flatMap fun l =>
-    match l with
-    | none => [nl]
-    | some (.text t, rest) => .text (t.drop n) :: rest ++ [nl]
-    | some (.link id, rest) => .link id :: rest ++ [nl]
+def sanitizeSpec (lines : List MLine) : Msg := lines.flatMap (lineWithout (commonIndent lines))
 
 /-- canonical form used when two results are compared up to text segmentation: adjacent texts merged, empty dropped -/
 def mergeMsg : Msg → Msg
@@ -429,11 +468,8 @@ def parseCommentG (san : Sanitizer) (lines : List Str) : Outcome CErr DocC :=
 /-- the comment parser as it is -/
 def parseComment (lines : List Str) : Outcome CErr DocC := parseCommentG sanitizeMessageLines lines
 
-/-- the comment parser with the indentation rule the property states -/
+/-- the comment parser with the indentation rule the property states (`Props/C16.parse_eq_spec`: the same function) -/
 def parseCommentSpec (lines : List Str) : Outcome CErr DocC := parseCommentG (fun ls => .ok (sanitizeSpec ls)) lines
-
-/-- the comment parser with D-16a repaired only (character counts, otherwise the code's rule) -/
-def parseCommentChars (lines : List Str) : Outcome CErr DocC := parseCommentG (fun ls => .ok (sanitizeChars ls)) lines
 
 /-! ## what the Slice parser does with the result (`parse_doc_comment` in parsers/slice/grammar.rs) -/
 
@@ -456,7 +492,8 @@ structure Attached where
   lints : List LintCode
   deriving DecidableEq, Repr, Inhabited
 
-/-- `parse_doc_comment`: no lines → no comment; failure → one lint and no comment. A panic is not caught. -/
+/-- `parse_doc_comment`: no lines → no comment; failure → one lint and no comment. A panic would not be caught
+    (`Props/C16.attach_total`: with the code's sanitizer there is none). -/
 def attachG (san : Sanitizer) (raw : List Str) : Outcome CErr Attached :=
   match raw with
   | [] => .ok ⟨none, []⟩
